@@ -22,10 +22,10 @@ PROP = {
                   "name the table knows without a value for the type' (both: canonical name, no addresses). "
                   "CNAME answers written in upper case and trailing-dot names are outside the generated domain.",
     "tests": [
-        ("TestVFC06Table", (20000, 100000)),
-        ("TestVFC06Cycles", (4000, 20000)),
+        ("TestVFC06Table", (15000, 100000)),
+        ("TestVFC06Cycles", (3000, 20000)),
     ],
-    "plain": ["TestVFC06DocExamples"],
+    "plain": ["TestVFC06DocExamples", "TestVFC06RegressWildcardOtherTypeException"],
     "shards": (2, 16),
     "workers": (4, 16),
     "rule": "One evaluation = one (table, question) decision, looked up in every drawn order of the table. "
